@@ -25,6 +25,17 @@
 (* Inc[j] * U (U a fixed tensor), so gradients are rationals times fixed     *)
 (* tensors:  dL/dy0 = lam0 * V,  dL/da = ga * tick * colsum(V),             *)
 (* dL/db = gb * V^T U.                                                      *)
+(*                                                                         *)
+(* A second family makes the vector fields depend on time, non-evenly:      *)
+(* f == a (1 + t), g == b (1 + t) (real time t = (tick + TOff) / TickDen).   *)
+(* The adjoint state is still piecewise constant.  A consistent one-step    *)
+(* solver adds, per backward step over the forward-time cell [lo, hi],      *)
+(* lam (1 + ta) (hi - lo) to grad a and lam (1 + tb) W(lo, hi) to grad b,    *)
+(* with nodes ta, tb inside the cell (or convex combinations of such).      *)
+(* `lin` carries the values for the midpoint node and the error budget      *)
+(* |node - mid| <= (hi - lo)/2:  whatever nodes a solver uses, the real      *)
+(* gradient must lie within  lin.ea / lin.eb  of  lin.ga / lin.gb -- and it  *)
+(* cannot if a field is evaluated at the wrong (e.g. un-negated) time.       *)
 (***************************************************************************)
 EXTENDS Rational, FiniteSets, TLC, Json
 
@@ -43,8 +54,9 @@ VARIABLES scn,    \* the scenario (constant along a behaviour)
           lam,    \* adjoint state (coefficient of V)
           ga, gb, \* accumulated gradient coefficients for a and b
           out,    \* gradient slots returned: function slot -> "grad" (value elsewhere) ; set at the end
-          saved   \* whether the forward pass saved the solver's extra state for the backward pass
-dvars == <<scn, pc, cur, oi, seg, fq, bq, calls, inj, lam, ga, gb, out, saved>>
+          saved,  \* whether the forward pass saved the solver's extra state for the backward pass
+          lin     \* time-dependent family: [ga, gb: midpoint-node values; ea, eb: budgets]
+dvars == <<scn, pc, cur, oi, seg, fq, bq, calls, inj, lam, ga, gb, out, saved, lin>>
 
 \* ---------- tables ----------
 \* per-tick Brownian increments (coefficients), ticks 1..16
@@ -67,12 +79,29 @@ AllReq == <<
   [y0 |-> TRUE,  a |-> FALSE, b |-> TRUE,  u |-> FALSE, ask |-> {"a", "b"}] >>
 Params == {"a", "b", "u"}
 
+\* real time of tick x (a rational number of ticks) for the time-dependent family
+TickDen == 8
+TOff    == 16
+TimeOf(x) == RDiv(RAdd(x, RInt(TOff)), RInt(TickDen))
+RatAbs(x) == IF x[1] < 0 THEN RNeg(x) ELSE x
+LinZero == [ga |-> RZero, gb |-> RZero, ea |-> RZero, eb |-> RZero]
 N(s) == Len(s.ts)
 Min(x, y) == IF x <= y THEN x ELSE y
 Aligned(s) == \A i \in 1..N(s) : (s.ts[i] - s.ts[1]) % s.D = 0
 RECURSIVE IncSum(_, _)
 IncSum(a, b) == IF a >= b THEN RZero ELSE RAdd(Inc[b], IncSum(a, b - 1))    \* W coefficient over ticks (a, b]
 W(s, i) == IF i \in s.wset THEN Wt[i] ELSE RZero
+\* one backward step over the forward-time cell [lo, hi] (ticks) with adjoint state l
+LinStep(a, l, lo, hi) ==
+  LET len  == R(hi - lo, TickDen)
+      phi  == RAdd(ROne, TimeOf(R(lo + hi, 2)))          \* 1 + t at the midpoint
+      half == RMul(RHalf, len)                            \* max distance of any node in the cell from it
+      w    == IncSum(lo, hi)
+  IN [ga |-> RAdd(a.ga, RMul(l, RMul(len, phi))),
+      ea |-> RAdd(a.ea, RMul(RatAbs(l), RMul(len, half))),
+      gb |-> RAdd(a.gb, RMul(l, RMul(phi, w))),
+      eb |-> RAdd(a.eb, RMul(RatAbs(l), RMul(half, RatAbs(w))))]
+
 
 \* what the caller asked for: y0 if it requires grad; the adjoint parameters = those of (the explicit list, or
 \* all parameters of the module) that require grad
@@ -89,39 +118,40 @@ ValidScn(s) == s.wset \subseteq 1..N(s) /\ Requested(s) # {}
 Init == /\ scn \in {s \in Scenarios : ValidScn(s)}
         /\ pc = "start" /\ cur = scn.ts[1] /\ oi = 2 /\ seg = 0
         /\ fq = <<>> /\ bq = <<>> /\ calls = <<>> /\ inj = <<>>
-        /\ lam = RZero /\ ga = RZero /\ gb = RZero /\ out = <<>> /\ saved = FALSE
+        /\ lam = RZero /\ ga = RZero /\ gb = RZero /\ out = <<>> /\ saved = FALSE /\ lin = LinZero
 
 \* sdeint_adjoint: the forward pass is ONE integrate call with the user's ts -- the same call sdeint makes
 FwdCall == /\ pc = "start"
            /\ calls' = Append(calls, scn.ts)
            /\ pc' = "fwd"
            /\ saved' = (scn.pair = "revheun")
-           /\ UNCHANGED <<scn, cur, oi, seg, fq, bq, inj, lam, ga, gb, out>>
+           /\ UNCHANGED <<scn, cur, oi, seg, fq, bq, inj, lam, ga, gb, out, lin>>
 FwdStep == /\ pc = "fwd" /\ oi <= N(scn) /\ cur < scn.ts[oi]
            /\ LET nxt == Min(cur + scn.D, scn.ts[N(scn)])
               IN fq' = Append(fq, <<cur, nxt>>) /\ cur' = nxt
-           /\ UNCHANGED <<scn, pc, oi, seg, bq, calls, inj, lam, ga, gb, out, saved>>
+           /\ UNCHANGED <<scn, pc, oi, seg, bq, calls, inj, lam, ga, gb, out, saved, lin>>
 FwdOut  == /\ pc = "fwd" /\ oi <= N(scn) /\ cur >= scn.ts[oi]
            /\ oi' = oi + 1
-           /\ UNCHANGED <<scn, pc, cur, seg, fq, bq, calls, inj, lam, ga, gb, out, saved>>
+           /\ UNCHANGED <<scn, pc, cur, seg, fq, bq, calls, inj, lam, ga, gb, out, saved, lin>>
 \* backward starts from the last output: adjoint state = dL/dys[N]
 BwdStart == /\ pc = "fwd" /\ oi = N(scn) + 1
             /\ seg' = N(scn)
             /\ lam' = W(scn, N(scn))
             /\ inj' = <<[idx |-> N(scn), t |-> scn.ts[N(scn)]]>>
             /\ pc' = "seg"
-            /\ UNCHANGED <<scn, cur, oi, fq, bq, calls, ga, gb, out, saved>>
+            /\ UNCHANGED <<scn, cur, oi, fq, bq, calls, ga, gb, out, saved, lin>>
 \* Segment(i): one integrate call over [-ts[i], -ts[i-1]]
 SegBegin == /\ pc = "seg" /\ seg >= 2
             /\ calls' = Append(calls, <<-scn.ts[seg], -scn.ts[seg - 1]>>)
             /\ cur' = -scn.ts[seg]
             /\ pc' = "segstep"
-            /\ UNCHANGED <<scn, oi, seg, fq, bq, inj, lam, ga, gb, out, saved>>
+            /\ UNCHANGED <<scn, oi, seg, fq, bq, inj, lam, ga, gb, out, saved, lin>>
 SegStep == /\ pc = "segstep" /\ cur < -scn.ts[seg - 1]
            /\ LET nxt == Min(cur + scn.D, -scn.ts[seg - 1])
               IN /\ bq' = Append(bq, <<-nxt, -cur>>)           \* B~(cur, nxt) = B(-nxt, -cur)
                  /\ ga' = RAdd(ga, RMul(lam, RInt(nxt - cur)))
                  /\ gb' = RAdd(gb, RMul(lam, IncSum(-nxt, -cur)))
+                 /\ lin' = LinStep(lin, lam, -nxt, -cur)
                  /\ cur' = nxt
            /\ UNCHANGED <<scn, pc, oi, seg, fq, calls, inj, lam, out, saved>>
 \* Inject(i): at time ts[i-1]: state part := ys[i-1]; adjoint part += dL/dys[i-1]
@@ -130,12 +160,12 @@ Inject == /\ pc = "segstep" /\ cur >= -scn.ts[seg - 1]
           /\ lam' = RAdd(lam, W(scn, seg - 1))
           /\ seg' = seg - 1
           /\ pc' = IF seg - 1 = 1 THEN "fin" ELSE "seg"
-          /\ UNCHANGED <<scn, cur, oi, fq, bq, calls, ga, gb, out, saved>>
+          /\ UNCHANGED <<scn, cur, oi, fq, bq, calls, ga, gb, out, saved, lin>>
 \* gradients are handed back for y0 and the adjoint parameters only
 Finish == /\ pc = "fin"
           /\ out' = [x \in Requested(scn) |-> "grad"]
           /\ pc' = "done"
-          /\ UNCHANGED <<scn, cur, oi, seg, fq, bq, calls, inj, lam, ga, gb, saved>>
+          /\ UNCHANGED <<scn, cur, oi, seg, fq, bq, calls, inj, lam, ga, gb, saved, lin>>
 Next == FwdCall \/ FwdStep \/ FwdOut \/ BwdStart \/ SegBegin \/ SegStep \/ Inject \/ Finish
 Spec == Init /\ [][Next]_dvars
 
@@ -167,6 +197,15 @@ ClosedLam(s) == RSumSeq([i \in 1..N(s) |-> W(s, i)])
 ClosedGa(s)  == RSumSeq([i \in 1..N(s) |-> RMul(W(s, i), RInt(s.ts[i] - s.ts[1]))])
 ClosedGb(s)  == RSumSeq([i \in 1..N(s) |-> RMul(W(s, i), IncSum(s.ts[1], s.ts[i]))])
 ClosedForm == pc = "done" => lam = ClosedLam(scn) /\ ga = ClosedGa(scn) /\ gb = ClosedGb(scn)
+\* time-dependent family: y(t_i) = y0 + a int_{t0}^{t_i} (1+t) dt + b int (1+t) dW; the midpoint rule is exact
+\* on the drift integral, so the driver's value must be the closed form; budgets are non-negative and vanish
+\* only with the weights
+ClosedLinGa(s) == RSumSeq([i \in 1..N(s) |->
+                    LET Ti == TimeOf(RInt(s.ts[i]))
+                        T1 == TimeOf(RInt(s.ts[1]))
+                    IN RMul(W(s, i), RAdd(RSub(Ti, T1), RMul(RHalf, RSub(RMul(Ti, Ti), RMul(T1, T1)))))])
+LinearFamily == pc = "done" => /\ lin.ga = ClosedLinGa(scn)
+                               /\ RLe(RZero, lin.ea) /\ RLe(RZero, lin.eb)
 
 \* ---------- export for the conformance binding ----------
 RECURSIVE SetToSeq(_)
@@ -177,7 +216,8 @@ ScnJ(s) == [D |-> s.D, ts |-> s.ts, wset |-> SetToSeq(s.wset), w |-> [i \in 1..N
             pair |-> s.pair, aligned |-> Aligned(s)]
 Export == pc = "done" =>
   PrintT("@@" \o ToJson([kind |-> "drv", scn |-> ScnJ(scn), fq |-> fq, bq |-> bq, calls |-> calls,
-                         inj |-> inj, lam |-> lam, ga |-> ga, gb |-> gb,
+                         inj |-> inj, lam |-> lam, ga |-> ga, gb |-> gb, lin |-> lin,
+                         toff |-> TOff, tickden |-> TickDen,
                          slots |-> SetToSeq(DOMAIN out), extras |-> saved,
                          inc |-> [j \in 1..scn.ts[N(scn)] |-> Inc[j]]]))
 
